@@ -124,6 +124,7 @@ SetToSeq(s) == LET RECURSIVE R(_)
                    R(x) == IF x = {} THEN <<>> ELSE LET e == CHOOSE e \in x : TRUE IN <<e>> \o R(x \ {e})
                IN R(s)
 ItemJ(it) == [n |-> it.n, cls |-> it.cls, kind |-> it.kind, vals |-> SetToSeq(it.vals)]
+DevJ(d) == [d EXCEPT !.items = [i \in 1..Len(d.items) |-> ItemJ(d.items[i])], !.errok = SetToSeq(d.errok)]
 \* one evaluation of Items(c) per case: the round-trip law, then the export
 CaseOK ==
   LET its == Items(c) IN
@@ -131,7 +132,7 @@ CaseOK ==
   /\ Serialize(ToJson([profile |-> Profile, defaults |-> c.defaults, attrs |-> c.attrs, kws |-> c.kws,
                        vias |-> vias, fa |-> fa, fd |-> fd,
                        items |-> [i \in 1..Len(its) |-> ItemJ(its[i])],
-                       err |-> SetToSeq(ErrOk(its)), dev |-> DevAttrs(c, its)]) \o "\n",
+                       err |-> ErrOk(its), dev |-> DevJ(DevAttrs(c))]) \o "\n",
                IOEnv.OUT, [format |-> "TXT", charset |-> "UTF-8",
                            openOptions |-> <<"WRITE", "CREATE", "APPEND">>]).exitValue = 0
 =============================================================================
